@@ -39,6 +39,8 @@ def registry_effects(evs):
                 out.append((COLL[m.group(1)], "-", e.extra.get("key", ""), e))
         elif e.kind == "call":
             f = e.extra.get("func", "")
+            # d.setdefault(k, <fresh empty container>).op(..) acts on the entry of k, created on demand: what d[k].op(..) does on a defaultdict
+            f = re.sub(r"^self\.(_\w+)\.setdefault\((.+), (?:set\(\)|list\(\)|\[\]|\{\}|dict\(\))\)\.", r"self.\1[\2].", f)
             m = re.fullmatch(r"self\.(_\w+)(\[(.+)\])?\.(\w+)", f)
             if m is None:
                 # an alias of a handler set bound on this path: handlers = self._handlers[watch]; handlers.remove(h)
@@ -57,9 +59,22 @@ def registry_effects(evs):
                 elif op == "clear":
                     out.append((c, "0", "*", e))
         elif e.kind == "loop":
-            for b in e.extra["paths"]:
-                for x in registry_effects(b.evs):
-                    out.append(x)
+            inner = [x for b in e.extra["paths"] for x in registry_effects(b.evs)]
+            # a loop over (a copy of) all keys of the emitter map that takes each key's emitter out of the map -- and that emitter out of
+            # the emitter set -- empties both: the same effect as clear()
+            m_all = re.fullmatch(r"(?:list|tuple|set|frozenset)\(self\._emitter_for_watch(?:\.keys\(\))?\)|self\._emitter_for_watch\.copy\(\)", e.text)
+            if m_all:
+                el = f"$elem({e.text})"
+                bodies = [b for b in e.extra["paths"] if b.outcome[0] != "raise"]
+                takes = bodies and all(any(c == "M" and op == "-" and k == el for c, op, k, _x in registry_effects(b.evs)) for b in bodies)
+                drops = bodies and all(any(c == "E" and op == "-" and (k == f"self._emitter_for_watch.pop({el})" or k == f"self._emitter_for_watch[{el}]") for c, op, k, _x in registry_effects(b.evs)) for b in bodies)
+                if takes:
+                    out.append(("M", "0", "*", e))
+                    inner = [x for x in inner if not (x[0] == "M" and x[1] == "-" and x[2] == el)]
+                if takes and drops:
+                    out.append(("E", "0", "*", e))
+                    inner = [x for x in inner if not (x[0] == "E" and x[1] == "-")]
+            out.extend(inner)
     return out
 
 
@@ -204,7 +219,9 @@ def run(ctx) -> None:
         {"h", "E", "M", "W"},  # add watch (the defaultdict creates the key with the first handler)
         {"H", "h", "E", "M", "W"},
         {"h", "W"},  # add handler to an existing watch (watch add is idempotent)
+        {"H", "h", "W"},  # the same with the registry entry created on demand by setdefault (what the defaultdict does implicitly)
         {"h"},  # add handler only
+        {"H", "h"},
         {"h-"},  # remove handler only: the key stays as long as the watch is scheduled
         {"H-", "E-", "M-", "W-"},  # remove watch
         {"H0", "E0", "M0", "W0"},  # clear
